@@ -28,9 +28,9 @@ import (
 )
 
 var (
-	nImages, nErrors, nRecovered, nMut atomic.Int64
-	sampled                           atomic.Int64
-	byFault                           sync.Map
+	nImages, nErrors, nRecovered, nMut, nInfoNonPrefix atomic.Int64
+	sampled                                            atomic.Int64
+	byFault                                            sync.Map
 )
 
 type entryPos struct {
@@ -83,10 +83,11 @@ func posClass(e entryPos, off int) string {
 }
 
 type fault struct {
-	kind string // trunc | zerotail | flip | multi | earlier | garbage
+	kind string // trunc | zerotail | flip | range-garbage | range-zero | earlier | hidden | merge | garbage-tail
 	desc string
 	cls  string
 	img  []byte
+	info bool // outside the judged fault model: counted, never a violation
 }
 
 func runCase(r *ev.Run, idx int) {
@@ -218,15 +219,12 @@ func runCase(r *ev.Run, idx int) {
 		if !boundary[t] {
 			cls = posClass(entryAt(t), t)
 		}
-		faults = append(faults, fault{"trunc", fmt.Sprintf("last segment truncated to %d of %d bytes", t, len(pristine)), cls, pristine[:t]})
+		faults = append(faults, fault{kind: "trunc", desc: fmt.Sprintf("last segment truncated to %d of %d bytes", t, len(pristine)), cls: cls, img: pristine[:t]})
 	}
 	if len(entries) > 0 {
 		last := entries[len(entries)-1]
-		from := last.pos
-		if len(entries) > 1 {
-			from = entries[len(entries)-2].pos
-		}
-		for t := from; t < len(pristine); t++ { // torn write into a preallocated/zeroed tail
+		from := 1
+		for t := from; t < len(pristine); t++ { // the tail from any offset reads as zeros (torn write into a preallocated/zeroed tail)
 			img := append([]byte{}, pristine...)
 			for i := t; i < len(img); i++ {
 				img[i] = 0
@@ -235,39 +233,81 @@ func runCase(r *ev.Run, idx int) {
 			if !boundary[t] {
 				cls = posClass(entryAt(t), t)
 			}
-			faults = append(faults, fault{"zerotail", fmt.Sprintf("bytes %d..%d zeroed", t, len(pristine)), cls, img})
+			faults = append(faults, fault{kind: "zerotail", desc: fmt.Sprintf("bytes %d..%d zeroed", t, len(pristine)), cls: cls, img: img})
 		}
 		for off := last.pos; off < last.end; off++ { // every byte of the last entry
 			for _, mask := range []byte{0x01, 0x80, 0xff, byte(1 + rng.Intn(255))} {
 				img := append([]byte{}, pristine...)
 				img[off] ^= mask
-				faults = append(faults, fault{"flip", fmt.Sprintf("byte %d of the last entry [%d,%d) xor %#02x", off, last.pos, last.end, mask), posClass(last, off), img})
+				faults = append(faults, fault{kind: "flip", desc: fmt.Sprintf("byte %d of the last entry [%d,%d) xor %#02x", off, last.pos, last.end, mask), cls: posClass(last, off), img: img})
 			}
 		}
-		for k := 0; k < 64; k++ { // multi-byte damage inside the last entry
-			img := append([]byte{}, pristine...)
-			off := last.pos + rng.Intn(last.end-last.pos)
-			l := 2 + rng.Intn(15)
-			if off+l > last.end {
-				l = last.end - off
+		for k := 0; k < 288; k++ { // a contiguous byte range inside ONE entry (last or earlier, later entries intact) -> garbage or zeros
+			e := last
+			if len(entries) > 1 && k%2 == 1 {
+				e = entries[rng.Intn(len(entries)-1)]
 			}
-			rng.Read(img[off : off+l])
-			faults = append(faults, fault{"multi", fmt.Sprintf("%d random bytes at %d in the last entry", l, off), posClass(last, off), img})
+			off := e.pos + rng.Intn(e.end-e.pos)
+			l := 1 + rng.Intn(min(e.end-off, 24))
+			if rng.Intn(4) == 0 {
+				l = e.end - off // to the end of the entry
+			}
+			img := append([]byte{}, pristine...)
+			kind := "range-garbage"
+			if k%3 == 0 {
+				kind = "range-zero"
+				for x := off; x < off+l; x++ {
+					img[x] = 0
+				}
+			} else {
+				rng.Read(img[off : off+l])
+			}
+			where := "last"
+			if e.end != last.end {
+				where = "earlier"
+			}
+			faults = append(faults, fault{kind: kind, desc: fmt.Sprintf("%s of bytes [%d,%d) inside the %s entry [%d,%d)", kind, off, off+l, where, e.pos, e.end), cls: where + "-" + posClass(e, off), img: img})
 		}
 		if len(entries) > 1 {
 			for k := 0; k < 96; k++ { // an earlier entry of the unsynced tail is damaged, later ones intact
 				e := entries[rng.Intn(len(entries)-1)]
 				off := e.pos + rng.Intn(e.end-e.pos)
 				img := append([]byte{}, pristine...)
-				img[off] ^= byte(1 + rng.Intn(255))
-				faults = append(faults, fault{"earlier", fmt.Sprintf("byte %d of entry [%d,%d) (not the last) damaged", off, e.pos, e.end), posClass(e, off), img})
+				mask := byte(1 + rng.Intn(255))
+				img[off] ^= mask
+				faults = append(faults, fault{kind: "earlier", desc: fmt.Sprintf("byte %d of entry [%d,%d) (not the last) xor %#02x (%#02x -> %#02x)", off, e.pos, e.end, mask, pristine[off], img[off]), cls: posClass(e, off), img: img})
 			}
 		}
 	}
-	for k := 0; k < 32; k++ { // garbage after the last complete entry (start of a torn next write)
+	if len(entries) > 2 {
+		// a non-last entry whose payload and checksum fields are turned into one unknown
+		// field (2 bytes: data tag 0x12 -> 0x1a, its length -> rest of the entry)
+		for _, ei := range []int{0, len(entries) / 2, len(entries) - 2} {
+			e := entries[ei]
+			q := e.dataStart
+			if e.end-q < 5 || pristine[q] != 0x08 || pristine[q+2] != 0x12 || e.end-(q+4) > 127 {
+				continue
+			}
+			img := append([]byte{}, pristine...)
+			img[q+2] = 0x1a
+			img[q+3] = byte(e.end - (q + 4))
+			faults = append(faults, fault{kind: "hidden", desc: fmt.Sprintf("entry %d of %d [%d,%d): data tag 0x12->0x1a and length byte -> %d (payload+checksum become an unknown field)", ei+1, len(entries), e.pos, e.end, img[q+3]), cls: "header", img: img})
+		}
+	}
+	for ei := 0; ei+1 < len(entries); ei++ { // length prefix of entry k enlarged to swallow entry k+1 (1 byte)
+		e, nx := entries[ei], entries[ei+1]
+		merged := (e.end - e.dataStart) + (nx.end - nx.pos)
+		if e.dataStart-e.pos != 1 || merged > 127 {
+			continue
+		}
+		img := append([]byte{}, pristine...)
+		img[e.pos] = byte(merged)
+		faults = append(faults, fault{kind: "merge", desc: fmt.Sprintf("length prefix of entry %d of %d: %d -> %d (covers the next entry too)", ei+1, len(entries), pristine[e.pos], merged), cls: "lenprefix", img: img})
+	}
+	for k := 0; k < 32; k++ { // informational only: garbage after the last complete entry
 		gb := make([]byte, 1+rng.Intn(40))
 		rng.Read(gb)
-		faults = append(faults, fault{"garbage", fmt.Sprintf("%d garbage bytes appended", len(gb)), "tail", append(append([]byte{}, pristine...), gb...)})
+		faults = append(faults, fault{kind: "garbage-tail", desc: fmt.Sprintf("%d garbage bytes appended", len(gb)), cls: "tail", img: append(append([]byte{}, pristine...), gb...), info: true})
 	}
 
 	cfg := aof.Config{Logger: zap.NewNop(), HasnFn: hash, DataDir: st.Dir, FlushInterval: time.Hour}
@@ -281,6 +321,10 @@ func runCase(r *ev.Run, idx int) {
 			c.(*atomic.Int64).Add(1)
 		}
 		d, err, pan := openImage(cfg)
+		if pan != "" && f.info {
+			nInfoNonPrefix.Add(1)
+			continue
+		}
 		if pan != "" {
 			r.Case("")
 			r.Violation("panic-on-reopen/"+f.kind+"/"+f.cls, name, fmt.Sprintf("%s (%s, fault in %s): aof.New panicked: %s", f.desc, segCls, f.cls, pan),
@@ -295,7 +339,10 @@ func runCase(r *ev.Run, idx int) {
 			fp := snap.Fingerprint()
 			recFP = fp
 			nRecovered.Add(1)
-			if _, ok := states[fp]; !ok || len(diffs) > 0 {
+			if _, ok := states[fp]; (!ok || len(diffs) > 0) && f.info {
+				nInfoNonPrefix.Add(1)
+				continue
+			} else if !ok || len(diffs) > 0 {
 				what := fmt.Sprintf("%s (%s, fault in %s): aof.New succeeded and the store holds a state that no prefix of the %d acknowledged mutations produces", f.desc, segCls, f.cls, opNo)
 				key := "non-prefix-state/" + f.kind + "/" + f.cls
 				if len(diffs) > 0 {
@@ -315,6 +362,9 @@ func runCase(r *ev.Run, idx int) {
 			}
 		} else {
 			nErrors.Add(1)
+		}
+		if f.info {
+			continue
 		}
 		r.Case(fmt.Sprintf("%s/%s/%s/%s", f.kind, f.cls, segCls, outcome))
 		if outcome == "intermediate" && f.kind == "trunc" && sampled.Add(1) <= 3 {
@@ -343,7 +393,7 @@ func openImage(cfg aof.Config) (d *aof.DiskKV, err error, pan string) {
 
 func main() {
 	r := ev.Start("C22", "fault_enumeration")
-	r.SetRule("a history = 12-32 (52 thorough) PRNG mutations on the real AOF store (every 6th behind >= 2 MB of large values so the log has several segments, every 4th with a clean restart in the middle), stopped cleanly; fault images of the last segment file, enumerated completely per history: truncation to every offset; zero-filled tail from every offset of the last two entries; every byte of the last entry xor {0x01,0x80,0xff,random}; plus seeded: 64 multi-byte overwrites of the last entry, 96 single-byte damages of earlier entries, 32 garbage tails. A case = one image reopened with aof.New; distinct+non-trivial by (fault kind, where it hits: entry boundary / length prefix / header / payload / checksum, single/multi segment, outcome: error / final / intermediate / empty state)")
+	r.SetRule("a history = 12-32 (52 thorough) PRNG mutations on the real AOF store (every 6th behind >= 2 MB of large values so the log has several segments, every 4th with a clean restart in the middle), stopped cleanly; fault images of the last segment file: truncation to every offset; the tail zeroed from every offset; every byte of the last entry xor {0x01,0x80,0xff,random}; seeded: 288 contiguous byte ranges inside ONE entry (last, or an earlier one with the later entries intact) replaced by PRNG garbage or zeros, 96 single-byte xors of earlier entries; crafted: 3 entries whose payload+checksum are masked as an unknown field, every entry whose length prefix is enlarged to swallow its successor. A case = one image reopened with aof.New; distinct+non-trivial by (fault kind, where it hits: entry boundary / length prefix / header / payload / checksum, last or earlier entry, single/multi segment, outcome: error / final / intermediate / empty state). 32 garbage tails per history are reopened too but only counted (outside the judged fault model)")
 	r.Assume("histories are sampled; per history the truncation offsets and last-entry byte positions are enumerated completely, multi-byte and earlier-entry corruptions are seeded samples")
 	r.Assume("a fault is modelled as a change of the bytes of the last segment file only (older segments were synced when the segment was closed)")
 	r.Assume("the harness' parser of the tidwall/wal binary framing is used only to classify fault positions, never to decide")
@@ -373,6 +423,7 @@ func main() {
 	r.Count("fault_images_reopened", nImages.Load())
 	r.Count("reopen_failed_with_error", nErrors.Load())
 	r.Count("reopen_succeeded_state_checked", nRecovered.Load())
+	r.Count("info_unjudged_garbage_tail_images_not_error_or_prefix", nInfoNonPrefix.Load())
 	byFault.Range(func(k, v any) bool {
 		r.Count("images_"+k.(string), v.(*atomic.Int64).Load())
 		return true
